@@ -6,6 +6,7 @@ from lib import common, typegen, semref, bdds
 from lib.vals import *
 
 THEOREMS = ["C05_same_type_is_mutual_assignability", "C05_same_type_answer", "C05_assignability_is_emptiness_of_difference",
+            "C05_difference_is_set_difference", "C05_assignable_implies_inclusion", "C05_basic_types_assignability_is_inclusion",
             "C05_nonvacuous"]
 IMPORTS = "From Beff Require Import Model.Cases."
 QUERIES = ["a_sub_b", "b_sub_a", "same", "a_empty", "b_empty"]
